@@ -1,13 +1,69 @@
 """C20 — natural ordering: Lean model `NatSort.naturalCmp` (Model/NatSort.lean), theorems Props/C20.lean."""
+import re
+
+_RUN20 = re.compile(rb"[1-9][0-9]{19,}")
+_TAILRUN = re.compile(rb"[0-9]+$")
+_SEP = re.compile(rb"[0-9][:/]")
+
+
+def _unhex(h):
+    return b"" if h == "-" else bytes.fromhex(h)
+
+
+def region(line, out):
+    """Tag a case with the input region it exercises (the regions in which independently written regressions hid);
+    the histogram of one run is in the evidence (tag_histogram), so a generator change that thins a region is visible."""
+    f = line.split()
+    if not f:
+        return None
+    if f[0] in ("sorta", "sortd"):
+        k = len(f) - 1
+        if k <= 16:
+            return "sort:<=16"
+        tag = "sort:17-70" if k <= 70 else "sort:71-999" if k < 1000 else "sort:>=1000"
+        if any(int(w[i:i + 2], 16) >= 0x80 for w in f[1:] if w != "-" for i in range(0, len(w), 2)):
+            tag += "+non-ascii"
+        return tag
+    if len(f) != 4 or f[0] not in ("cmp", "less"):
+        return None
+    a, b = _unhex(f[2]), _unhex(f[3])
+    if a == b:
+        return "identical"
+    if max(len(a), len(b)) >= 1000:
+        return "long:>=1000-bytes"
+    la, lb = a.lower(), b.lower()
+    if la == lb:
+        d = {x < y for x, y in zip(a, b) if x != y}
+        return "case-only:opposite-directions" if len(d) == 2 else "case-only:one-direction"
+    if lb.startswith(la) or la.startswith(lb):
+        n = min(len(a), len(b))
+        return "prefix-after-folding:case-differs-in-shared-part" if a[:n] != b[:n] else "proper-prefix"
+    n = 0
+    while n < len(a) and n < len(b) and a[n] == b[n]:
+        n += 1
+    if n < len(a) and n < len(b) and 48 <= a[n] <= 57 and 48 <= b[n] <= 57 and (a[n] == 48 or b[n] == 48):
+        m = _TAILRUN.search(a[:n])
+        if m and m.group().strip(b"0"):
+            return "common-prefix-ends-inside-number:zero-continues"
+    for m in _RUN20.finditer(a + b" " + b):
+        if int(m.group()) >= 1 << 64:
+            return "number>=2^64"
+    if _SEP.search(a) or _SEP.search(b):
+        return "colon-or-slash-after-digit"
+    return "other"
 
 
 def run(ctx):
     ctx.modelled += ["slices.SortFunc is modelled by a merge sort; Props.C20.sorted_perm_unique shows every correct "
-                     "sort returns the same list, so the comparison of sorted outputs is exact"]
+                     "sort returns the same list, so the comparison of sorted outputs is exact",
+                     "the sort functions are handed a sub-slice of a larger array (0-2 elements in front, 0-3 spare "
+                     "capacity behind); the harness reports any write outside in[0:len] (the model has no notion of capacity)",
+                     "every library call runs under a 3 s deadline in the harness (`hang`), panics become `panic`, a fatal "
+                     "stack overflow ends the process within milliseconds (reduced maximal stack)"]
     ctx.lean(props=["Props.C20"], drivers=["drv_c20"])
     ctx.harness("./cmd/c20")
     ctx.diff(area="natsort", driver="drv_c20", n={"quick": 150000, "thorough": 6000000},
-             trivial=lambda l, o: False,
+             trivial=lambda l, o: False, tagger=region,
              theorem="C20.cmp_antisymm / cmp_trans / cmp_zero_iff / cmp_key / digits_numeric / digit_before_nondigit / "
                      "proper_prefix_first / bytes_bytewise(_ci) / sortAsc_sorted (model = spec); "
                      "impl != model on this input")
